@@ -16,9 +16,16 @@ FCS = {901: True, 902: False}
 WORDS = {"MUSS": ["Muss", "M", "muss", "MUSS"], "SOLL": ["Soll", "S", "soll", "sOLL"], "KANN": ["Kann", "K", "kann"], "PFX": ["X", "O", "U", "x"]}
 
 
-def label_expression(lab, rng, free=False):
-    """an AHB expression whose evaluation under the fixed content evaluation result realises the label"""
+def label_expression(lab, rng, free=False, node=0, dyn=None):
+    """an AHB expression whose evaluation under the fixed content evaluation result realises the label. With `dyn` (a dict the caller adds to the
+    package table of THIS AHB only) the expression may be a per-node package written with a repeatability or inner blanks whose definition differs
+    from AHB to AHB - the expression text is the same in many AHBs, its meaning is not."""
     ind, ful = lab["ind"], lab["ful"]
+    if dyn is not None and rng.random() < 0.12:
+        w = rng.choice(WORDS[ind if ind != "INV" else rng.choice(["MUSS", "SOLL", "KANN"])])
+        key = f"{100 + node}P"
+        dyn[key] = (f"[{rng.choice([1, 3, 5])}] O [501]" if ind == "INV" else f"[{rng.choice(KEYS[ful])}]")
+        return f"{w} " + rng.choice([f"[{key}0..1]", f"[ {key} ]", f"[{key} 1..3]", f"[{key}]"])
     if ind == "INV":
         w = rng.choice(WORDS[rng.choice(["MUSS", "SOLL", "KANN", "PFX"])])
         k = rng.choice([1, 3, 5])
@@ -49,7 +56,7 @@ def entry_expression(e, rng):
             "K": rng.choice(["X [5]", "X [5] U [1]"]), "I": rng.choice(["X [1] O [501]", "X [501] X [3]"])}[e]
 
 
-def build_ahb(nodes, rng, soll_to=None, inv_to_kann=False):
+def build_ahb(nodes, rng, soll_to=None, inv_to_kann=False, shared_discriminator=None):
     """nodes (spec encoding) -> DeepAnwendungshandbuch. The same rng seed gives the same expressions, so rewritten variants
     (SOLL -> Muss/Kann, INVALID -> Kann) differ from the original only where intended."""
     from maus.models.anwendungshandbuch import AhbMetaInformation, DeepAnwendungshandbuch
@@ -57,17 +64,19 @@ def build_ahb(nodes, rng, soll_to=None, inv_to_kann=False):
     objs = {}
     roots = []
     exprs = {}
+    dyn = {}
     for i, n in enumerate(nodes, start=1):
         sub = random.Random(rng.random())       # one independent stream per node, consumed identically in every variant
         kind = n["kind"]
         if kind in ("g", "s", "f"):
             lab = dict(n["lab"])
-            expr = label_expression(lab, sub, free=(kind == "f"))
+            expr = label_expression(lab, sub, free=(kind == "f"), node=i, dyn=dyn)
             if lab["ind"] == "SOLL" and soll_to:
                 # textual rewriting of the SOLL indicator word of this node's expression
                 expr = rewrite_soll(expr, soll_to)
             if lab["ind"] == "INV" and inv_to_kann:
                 expr = "Kann"
+                dyn.pop(f"{100 + i}P", None)
             exprs[i] = expr
         if kind == "g":
             o = SegmentGroup(discriminator=f"n{i}", ahb_expression=expr, segments=[], segment_groups=[])
@@ -77,7 +86,8 @@ def build_ahb(nodes, rng, soll_to=None, inv_to_kann=False):
             objs[n["par"]].segments.append(o)
         elif kind == "f":
             inp = "abc" if n["inp"] == "text" else sub.choice([None, ""])
-            o = DataElementFreeText(discriminator=f"n{i}", ahb_expression=expr, entered_input=inp, data_element_id="1234")
+            o = DataElementFreeText(discriminator=(shared_discriminator[0] if shared_discriminator else f"n{i}"), ahb_expression=expr, entered_input=inp,
+                                    data_element_id="1234")
             objs[n["par"]].data_elements.append(o)
         else:
             entries = []
@@ -87,11 +97,18 @@ def build_ahb(nodes, rng, soll_to=None, inv_to_kann=False):
                     ee = "Kann"
                 entries.append(ValuePoolEntry(qualifier=f"Q{j}", meaning=f"meaning {j}", ahb_expression=ee))
             inp = {"none": sub.choice([None, ""]), "q1": "Q1", "q2": "Q2", "q3": "Q3", "zz": "ZZ"}[n["inp"]]
-            o = DataElementValuePool(discriminator=f"n{i}", value_pool=entries, data_element_id="0333", entered_input=inp)
+            o = DataElementValuePool(discriminator=(shared_discriminator[0] if shared_discriminator else f"n{i}"), value_pool=entries, data_element_id="0333",
+                                     entered_input=inp)
             objs[n["par"]].data_elements.append(o)
             exprs[i] = [e.ahb_expression for e in entries]
         objs[i] = o
-    return DeepAnwendungshandbuch(meta=AhbMetaInformation(pruefidentifikator="11042"), lines=roots), exprs, objs
+    deep = DeepAnwendungshandbuch(meta=AhbMetaInformation(pruefidentifikator="11042"), lines=roots)
+    _DYN_PACKAGES[id(deep)] = dyn
+    for o in objs.values():
+        _DYN_PACKAGES[id(o)] = dyn
+    if dyn:
+        exprs["packages_of_this_ahb"] = dict(dyn)
+    return deep, exprs, objs
 
 
 def rewrite_soll(expr, to):
@@ -106,16 +123,29 @@ for _b in ("REQUIRED", "OPTIONAL", "FORBIDDEN"):
         STATUS[f"IS_{_b}_AND_{_f}"] = (_b, _f)
 
 
-def setup_cer():
+_DYN_PACKAGES = {}      # id(object built by build_ahb) -> the packages defined for that AHB only
+
+
+def setup_cer(obj=None):
     import ahb
     ahb.configure()
-    ahb.set_cer_values(rc=RC, fc=FCS, hints=HINTS, packages=PACKAGES)
+    pk = dict(PACKAGES)
+    pk.update(_DYN_PACKAGES.get(id(obj), {}) if obj is not None else {})
+    if len(_DYN_PACKAGES) > 20000:
+        _DYN_PACKAGES.clear()
+    ahb.set_cer_values(rc=RC, fc=FCS, hints=HINTS, packages=pk)
+
+
+def clone(deep):
+    d2 = copy.deepcopy(deep)
+    _DYN_PACKAGES[id(d2)] = _DYN_PACKAGES.get(id(deep), {})
+    return d2
 
 
 async def real_validate(deep, soll):
     """-> ('ok', [entry dicts]) | ('error', exception name)"""
     from ahbicht.validation.validation import validate_deep_anwendungshandbuch
-    setup_cer()
+    setup_cer(deep)
     try:
         rs = await validate_deep_anwendungshandbuch(deep, soll_is_required=soll)
     except NotImplementedError as e:
@@ -221,7 +251,7 @@ async def check_tree(mode, nodes, obs, sd, idx, acc):
     deep, exprs, _ = build_ahb(nodes, random.Random(rs))
     results = {}
     for soll in (True, False):
-        real = await real_validate(copy.deepcopy(deep), soll)
+        real = await real_validate(clone(deep), soll)
         acc.c("validations")
         results[soll] = real
         spec = spec_entries(obs["t" if soll else "f"])
@@ -236,7 +266,7 @@ async def check_tree(mode, nodes, obs, sd, idx, acc):
         from ahbicht.validation.validation import validate_segment_level
         for soll in (True, False):
             d2, _, objs2 = build_ahb(nodes, random.Random(rs))
-            setup_cer()
+            setup_cer(d2)
             acc.c("validations")
             try:
                 r2 = ("ok", [project_result(x) for x in await validate_segment_level(objs2[roots[0]], soll_is_required=soll)])
@@ -248,11 +278,31 @@ async def check_tree(mode, nodes, obs, sd, idx, acc):
                 acc.v(f"validate_segment_level on the root group (soll_is_required={soll}) gives {short(r2)}, validate_deep_anwendungshandbuch gives "
                       f"{short(results[soll])}; expressions {exprs}", case_of(nodes, sd, idx, soll=soll, exprs=exprs))
                 return
+    if mode == "C13" and sum(1 for n in nodes if n["kind"] in ("f", "p")) >= 2:
+        # data elements need not have distinct discriminators (maus allows None): every element is still reported once, in order
+        from ahbicht.validation.validation import validate_deep_anwendungshandbuch
+        for shared in ((None,), ("same",)):
+            d3, _, _ = build_ahb(nodes, random.Random(rs), shared_discriminator=shared)
+            setup_cer(d3)
+            acc.c("validations")
+            try:
+                rs3 = await validate_deep_anwendungshandbuch(d3, soll_is_required=True)
+                got = [(STATUS[str(r.validation_result.requirement_validation)]) for r in rs3]
+            except NotImplementedError:
+                got = "error"
+            except BaseException as e:  # pylint:disable=broad-except
+                got = f"exception {type(e).__name__}"
+            base = results[True]
+            exp = "error" if base[0] == "error" else [(e["status"], e["fill"]) for e in base[1]] if base[0] == "ok" else None
+            if exp is not None and got != exp:
+                acc.v(f"with the discriminator {shared[0]!r} on every data element the result is {got}; with distinct discriminators it is {exp} "
+                      f"(every element exactly once, in order); expressions {exprs}", case_of(nodes, sd, idx, soll=True, exprs=exprs))
+                return
     if mode == "C14":
         for soll, to in ((True, "MUSS"), (False, "KANN")):
             deep2, exprs2, _ = build_ahb(nodes, random.Random(rs), soll_to=to)
             for s2 in (True, False):
-                real2 = await real_validate(deep2 if s2 else copy.deepcopy(deep2), s2)
+                real2 = await real_validate(clone(deep2), s2)
                 acc.c("validations")
                 if strip(real2) != strip(results[soll]):
                     acc.v(f"soll_is_required={soll} gives {short(results[soll])} but the AHB with SOLL rewritten to {to} (flag {s2}) gives {short(real2)}; "
@@ -262,7 +312,7 @@ async def check_tree(mode, nodes, obs, sd, idx, acc):
         deep2, exprs2, _ = build_ahb(nodes, random.Random(rs), inv_to_kann=True)
         inv = {i for i, n in enumerate(nodes, start=1) if n["kind"] != "p" and n["lab"]["ind"] == "INV"}
         for soll in (True, False):
-            real2 = await real_validate(copy.deepcopy(deep2), soll)
+            real2 = await real_validate(clone(deep2), soll)
             acc.c("validations")
             r1 = results[soll]
             if r1[0] != real2[0]:
@@ -340,7 +390,7 @@ def replay_case(mode, case):
     deep, exprs, _ = build_ahb(nodes, random.Random(case["seed"] * 1000003 + case["idx"]))
     print("expressions:", exprs)
     for soll in (True, False):
-        print(f"soll_is_required={soll}:", short(asyncio.run(real_validate(copy.deepcopy(deep), soll))))
+        print(f"soll_is_required={soll}:", short(asyncio.run(real_validate(clone(deep), soll))))
     return 1
 
 
@@ -443,7 +493,7 @@ def large_metamorphic(mode, res, n_trees, max_nodes=25):
             deep, exprs, _ = build_ahb(nodes, random.Random(rs))
             res.distinct((mode, "large", repr(nodes)))
             for soll in (True, False):
-                base = await real_validate(copy.deepcopy(deep), soll)
+                base = await real_validate(clone(deep), soll)
                 res.count("validations")
                 if base[0] == "exception":
                     res.violation(f"validation of a random AHB with {len(nodes)} nodes raised {base[1]}; expressions {exprs}", case_of(nodes, seed(), tid, soll=soll))
@@ -452,7 +502,7 @@ def large_metamorphic(mode, res, n_trees, max_nodes=25):
                     to = "MUSS" if soll else "KANN"
                     d2, e2, _ = build_ahb(nodes, random.Random(rs), soll_to=to)
                     for s2 in (True, False):
-                        other = await real_validate(copy.deepcopy(d2), s2)
+                        other = await real_validate(clone(d2), s2)
                         res.count("validations")
                         if strip(other) != strip(base):
                             res.violation(f"random AHB with {len(nodes)} nodes: soll_is_required={soll} gives {short(base)} but the AHB with SOLL rewritten to {to} "
@@ -461,7 +511,7 @@ def large_metamorphic(mode, res, n_trees, max_nodes=25):
                 else:
                     inv = {i for i, n in enumerate(nodes, start=1) if n["kind"] != "p" and n["lab"]["ind"] == "INV"}
                     d2, e2, _ = build_ahb(nodes, random.Random(rs), inv_to_kann=True)
-                    other = await real_validate(copy.deepcopy(d2), soll)
+                    other = await real_validate(clone(d2), soll)
                     res.count("validations")
                     if base[0] != other[0]:
                         res.violation(f"random AHB with {len(nodes)} nodes: invalid expressions change whether validation completes: {short(base)} vs "
